@@ -10,6 +10,8 @@ and by the structural correspondence on random skeletons) either refuses, or bui
 that computes what Go's control flow computes.
 -/
 import GooseVerif.Lemmas.Tr
+import GooseVerif.Props.C01Core
+import GooseVerif.Props.C01Heap
 import GooseVerif.Gen.Guards
 import GooseVerif.Expected.Guards
 
@@ -58,5 +60,32 @@ theorem weakened_guard_mistranslates :
     ∃ ss t, trStmts' ss .returned = .ok t ∧ (∃ msg, trStmts ss .returned = .error msg) ∧
       exec witnessInterp 0 ss () = .returned 2 () ∧ evalT witnessInterp 0 t () = some (.unit, ()) :=
   ⟨mutantWitness, _, rfl, ⟨_, rfl⟩, rfl, rfl⟩
+
+/-! ### reject or faithful for the composed model and for heap data
+
+The same statement for the two larger models of `Props/C01Core.lean` and `Props/C01Heap.lean`: every program of the fragment is
+either refused with a conversion error (assignment, `x += e`, `x++` to a variable that is not assignable, `return` or
+`break` where goose cannot express them, an unsupported assignment operator, a name-binding post statement, a store through
+a pointer expression goose cannot take a reference of, …) or translated faithfully.  For the composed model the one shape
+that is ACCEPTED AND WRONG — a loop variable hiding a visible name, the listed known finding — is excluded by `loopVarsFresh`
+and shown to be necessary in `Props.C01Core.loopVarsFresh_needed`. -/
+
+theorem core_reject_or_faithful (b : Model.Core.Stmts) (params : List (String × Model.Core.W)) :
+    (∃ msg, Model.Core.tr (Model.Core.paramSEnv params) b = .error msg) ∨
+    (∃ t, Model.Core.tr (Model.Core.paramSEnv params) b = .ok t ∧
+      (b.loopVarsFresh (Model.Core.paramSEnv params) = true →
+        ∀ fuel, Model.Core.runT fuel params t = Model.Core.expected (Model.Core.runGo fuel params b))) := by
+  cases h : Model.Core.tr (Model.Core.paramSEnv params) b with
+  | error msg => exact .inl ⟨msg, rfl⟩
+  | ok t => exact .inr ⟨t, rfl, fun hf fuel => (Props.C01Core.core_compile_correct b params fuel t h hf).1⟩
+
+theorem heap_reject_or_faithful (ss : Model.Heap.Stmts) :
+    (∃ msg, Model.Heap.tr Model.Heap.emptyEnv ss = .error msg) ∨
+    (∃ t, Model.Heap.tr Model.Heap.emptyEnv ss = .ok t ∧
+      ∀ v G', Model.Heap.runGo ss = .ok (v, G') →
+        ∃ tv H' R', Model.Heap.runT t = some (tv, H') ∧ Model.Heap.VRel R' v tv ∧ Model.Heap.HRel R' G' H') := by
+  cases h : Model.Heap.tr Model.Heap.emptyEnv ss with
+  | error msg => exact .inl ⟨msg, rfl⟩
+  | ok t => exact .inr ⟨t, rfl, fun v G' hgo => Props.C01Heap.heap_compile_correct_closed ss t v G' h hgo⟩
 
 end GooseVerif.Props.C02
